@@ -61,10 +61,10 @@ Definition mkxs (cs : list spec_float) (ws : list Z) : list (keyed spec_float) :
 Definition zs (l : list Z) : list spec_float := map (fun z => f32_of_Z z) l.
 Definition tol005 : spec_float := f64_of_bits 4587366580439587226%N.   (* 0.05 *)
 
-Definition v_pinned : variant := mkvariant true false false false.       (* before 40af1ed *)
-Definition v_dist : variant := mkvariant false false false false.        (* 40af1ed .. before 241da30 *)
-Definition v_noprobe : variant := mkvariant false true false false.      (* 241da30, before a287019 *)
-Definition v_unsafe_mid : variant := mkvariant false true true false.    (* a287019, before 6449881 *)
+Definition v_pinned : variant := mkvariant true false false false false.       (* before 40af1ed *)
+Definition v_dist : variant := mkvariant false false false false false.        (* 40af1ed .. before 241da30 *)
+Definition v_noprobe : variant := mkvariant false true false false false.      (* 241da30, before a287019 *)
+Definition v_unsafe_mid : variant := mkvariant false true true false false.    (* a287019, before 6449881 *)
 
 (* 1. `count_left == prev_count_left`: 0,16,..,20 stops at 1 | 5 although 3 | 3 exists *)
 Lemma rcb_c04_refuted_1 : refuted v_pinned.
@@ -176,14 +176,28 @@ Proof.
            (mkxs (f32_ninf :: zs [0;1;2;3]) [1;1;1;1;1]) f32_ninf (f32_of_Z 3)); vm_compute; reflexivity.
 Qed.
 
-(* the whole algorithm on the f64 input (x, 0), x = 0,1,2,3,1e39: one part *)
+(* the whole algorithm on the f64 input (x, 0) with the PLAIN cast (before the
+   clamp fix): x = 0,1,2,3,1e39 ends in one part, x = -1e39,0,1,2,3 is cut 4 | 1;
+   with the clamped cast (current source) both are cut 3 | 2 *)
+Definition pts_x (xs : list Z) : list (list spec_float) := map (fun x => [f64_of_Z x; f64_of_Z 0]) xs.
 Example rcb_beyond_f32_one_part :
-  rcb head_variant 400 seq_sched 2 1 tol005
-      (map (fun x => [f64_of_Z x; f64_of_Z 0]) [0; 1; 2; 3; 10 ^ 39]) [1;1;1;1;1] [9;9;9;9;9]%N
+  rcb (head_variant_c false) 400 seq_sched 2 1 tol005 (pts_x [0; 1; 2; 3; 10 ^ 39]) [1;1;1;1;1] [9;9;9;9;9]%N
   = Ok [0;0;0;0;0]%N.
 Proof. vm_compute. reflexivity. Qed.
 Example rcb_beyond_f32_lopsided :
-  rcb head_variant 400 seq_sched 2 1 tol005
-      (map (fun x => [f64_of_Z x; f64_of_Z 0]) [- 10 ^ 39; 0; 1; 2; 3]) [1;1;1;1;1] [9;9;9;9;9]%N
+  rcb (head_variant_c false) 400 seq_sched 2 1 tol005 (pts_x [- 10 ^ 39; 0; 1; 2; 3]) [1;1;1;1;1] [9;9;9;9;9]%N
   = Ok [0;0;0;0;1]%N.
 Proof. vm_compute. reflexivity. Qed.
+Example rcb_beyond_f32_clamped :
+  rcb head_variant 400 seq_sched 2 1 tol005 (pts_x [0; 1; 2; 3; 10 ^ 39]) [1;1;1;1;1] [9;9;9;9;9]%N = Ok [0;0;0;1;1]%N
+  /\ rcb head_variant 400 seq_sched 2 1 tol005 (pts_x [- 10 ^ 39; 0; 1; 2; 3]) [1;1;1;1;1] [9;9;9;9;9]%N = Ok [0;0;0;1;1]%N
+  /\ rcb head_variant 400 seq_sched 2 1 tol005 (pts_x [- 10 ^ 39; 0; 1; 2; 3; 10 ^ 39]) [1;1;1;1;1;1] [9;9;9;9;9;9]%N
+     = Ok [0;0;0;1;1;1]%N.
+Proof. repeat split; vm_compute; reflexivity. Qed.
+(* the plain-cast outputs are rejected, the clamped ones accepted, by the
+   certified C04 checker (which judges the clamped binary32 images) *)
+Example checker_beyond_f32 :
+  check_balance32 2 1 tol005 (pts_x [0; 1; 2; 3; 10 ^ 39]) [1;1;1;1;1] [0;0;0;0;0]%N = false
+  /\ check_balance32 2 1 tol005 (pts_x [- 10 ^ 39; 0; 1; 2; 3]) [1;1;1;1;1] [0;0;0;0;1]%N = false
+  /\ check_balance32 2 1 tol005 (pts_x [0; 1; 2; 3; 10 ^ 39]) [1;1;1;1;1] [0;0;0;1;1]%N = true.
+Proof. repeat split; vm_compute; reflexivity. Qed.
